@@ -5,6 +5,18 @@
 //! jiff's algorithms. Every jiff call goes through `guard`; functions that are
 //! documented to panic on overflow must panic exactly when the exact result is
 //! unrepresentable, in both build flavours.
+//!
+//! Sections (coverage audit, round 3): every Span result of every operation
+//! is judged by `span::judge_span`: field by field, behaviourally against a
+//! span rebuilt from the same integers, and by the *unit-set decode* (every
+//! other unit overwritten with 0 through the public setter; what is left must
+//! match model-computed expectations), which pins jiff's cached sign and
+//! cached set of non-zero units exactly. `span_derived` applies the same
+//! consistency judgement to spans returned by span arithmetic, rounding,
+//! until/since and parsing. SignedDuration: compound assignment, `Sum`,
+//! `mul_f32`/`div_f32`, `system_until`, `From<Offset>`, and boundary partners
+//! that put every exact sum/difference/product on and one step beyond
+//! MIN/MAX.
 
 use core::hash::{Hash, Hasher};
 use jiff::SignedDuration;
@@ -75,15 +87,48 @@ pub fn judge(d: SignedDuration, n: i128) -> Option<String> {
 /// Set once in `main`: the thorough tier uses the larger pools.
 pub static THOROUGH: std::sync::atomic::AtomicBool = std::sync::atomic::AtomicBool::new(false);
 
-/// The 132 `(secs, nanos)` constructor inputs of DESIGN.md (quick); the
-/// thorough tier adds 16 more second values and 7 more nanosecond values
-/// (28 x 18 = 504 inputs).
+/// The `(secs, nanos)` constructor inputs: 28 x 18 = 504 in the quick tier
+/// (the 132 of DESIGN.md are a subset); the thorough tier has 58 second
+/// values x 26 nanosecond values = 1508.
 pub fn ctor_inputs() -> Vec<(i64, i32)> {
     let mut secs = vec![0i64, 1, -1, 2, -2, 1 << 32, -(1 << 32), 1 << 53, i64::MAX - 1, i64::MAX, i64::MIN + 1, i64::MIN];
     let mut nanos = vec![0i32, 1, -1, 999_999_999, -999_999_999, 1_000_000_000, -1_000_000_000, 1_999_999_999, -1_999_999_999, i32::MAX, i32::MIN];
+    secs.extend([3, -3, 59, -60, 3_600, -86_400, 1 << 31, -(1 << 31), (1 << 53) + 1, -(1 << 53), i64::MAX / 2, i64::MIN / 2, i64::MAX - 2, i64::MIN + 2, 631_107_417_600, -631_107_417_601]);
+    nanos.extend([2, -2, 500_000_000, -500_000_000, 999_999_998, 1_000_000_001, -1_000_000_001]);
     if THOROUGH.load(std::sync::atomic::Ordering::Relaxed) {
-        secs.extend([3, -3, 59, -60, 3_600, -86_400, 1 << 31, -(1 << 31), (1 << 53) + 1, -(1 << 53), i64::MAX / 2, i64::MIN / 2, i64::MAX - 2, i64::MIN + 2, 631_107_417_600, -631_107_417_601]);
-        nanos.extend([2, -2, 500_000_000, -500_000_000, 999_999_998, 1_000_000_001, -1_000_000_001]);
+        secs.extend([
+            7,
+            -7,
+            999,
+            -1_000,
+            999_999_999,
+            -1_000_000_000,
+            1_000_000_001,
+            i32::MAX as i64,
+            i32::MIN as i64,
+            i32::MAX as i64 + 1,
+            i32::MIN as i64 - 1,
+            (1 << 24) + 1,
+            -(1 << 24) - 1,
+            1 << 62,
+            -(1 << 62),
+            (1 << 62) - 1,
+            i64::MAX / 3,
+            i64::MIN / 3,
+            i64::MAX / 7,
+            i64::MIN / 7,
+            i64::MAX / 1_000,
+            i64::MIN / 1_000,
+            i64::MAX / 3_600,
+            i64::MIN / 60,
+            i64::MAX / 2 + 1,
+            i64::MIN / 2 - 1,
+            i64::MAX - 1_024,
+            i64::MIN + 1_024,
+            i64::MAX / i32::MAX as i64,
+            i64::MIN / i32::MAX as i64,
+        ]);
+        nanos.extend([3, -3, 999, -1_000, 1_000_000, -999_999, 123_456_789, -987_654_321]);
     }
     let mut v = vec![];
     for &s in &secs {
@@ -132,9 +177,12 @@ fn main() {
     sec!("sd_units", sd::units);
     sec!("sd_unary", sd::unary);
     sec!("sd_std", sd::std_conv);
+    sec!("sd_system_until", sd::system_until);
+    sec!("sd_from_offset", sd::from_offset);
     sec!("sd_float_ctor", sdfloat::ctor);
     sec!("sd_float_view", sdfloat::views);
     sec!("sd_float_muldiv", sdfloat::muldiv);
+    sec!("sd_float_muldiv32", sdfloat::muldiv32);
     sec!("sd_float_ratio", sdfloat::ratio);
     sec!("span_units", span::units);
     sec!("span_overwrite", span::overwrite);
@@ -143,5 +191,16 @@ fn main() {
     sec!("span_fieldwise", span::fieldwise);
     sec!("span_to_duration", span::to_duration);
     sec!("span_from_duration", span::from_duration);
+    sec!("span_tospan", span::tospan);
+    sec!("span_unit_enum", span::unit_enum);
+    sec!("span_derived", span::derived);
+    r.outcome("span_results_judged(fields + behaviour + unit-set decode)", span::JUDGED.load(std::sync::atomic::Ordering::Relaxed));
+    r.outcome("span_unit_bookkeeping_bits_decoded", span::DECODED_BITS.load(std::sync::atomic::Ordering::Relaxed));
+    let ec: Vec<u64> = span::EXPECT_CLASSES.iter().map(|c| c.load(std::sync::atomic::Ordering::Relaxed)).collect();
+    for (k, name) in ["datetime+span in range", "datetime+span out of range", "span+duration balanced", "span+duration refused", "total(ns) given", "total(ns) refused"].iter().enumerate() {
+        r.outcome(&format!("span_decode_model_expectation: {}", name), ec[k]);
+    }
+    r.require(ec.iter().all(|&c| c > 0), "the unit-set decode sees every model outcome class");
+    r.require(span::DECODED_BITS.load(std::sync::atomic::Ordering::Relaxed) > 0, "span results are compared behaviourally");
     r.finish();
 }
